@@ -13,6 +13,7 @@ structure WriteOk (d d' : DD β) (off len : Nat) (buf : Nat → β) : Prop where
   nb    : d'.nb = d.nb
   top   : d'.top = d.top
   same  : d'.uc = d.uc ∧ d'.rm = d.rm ∧ d'.marks = d.marks ∧ d'.snapIdx = d.snapIdx ∧ d'.punch = d.punch
+  alloc : ∀ i b, (d'.files i).alloc b = true → (d.files i).alloc b = true ∨ b < d.nb
 
 theorem rmw_zero (d : DD β) (off : Nat) (buf : Nat → β) : d.rmw off 0 buf = d := by
   unfold rmw; simp
@@ -27,17 +28,34 @@ theorem rmw_meta (d : DD β) (off len : Nat) (buf : Nat → β) :
     simp only [fullWrite]
     exact ⟨this.2.2.2.2.2.1, this.2.2.2.2.2.2.1, this.2.2.2.1, this.2.2.2.2.1, this.2.2.2.2.2.2.2.2⟩
 
+theorem rmw_alloc (d : DD β) (off len : Nat) (buf : Nat → β) (hb : off / d.bs < d.nb) (i b : Nat)
+    (ha : ((d.rmw off len buf).files i).alloc b = true) : (d.files i).alloc b = true ∨ b < d.nb := by
+  unfold rmw at ha
+  split at ha
+  · left; exact ha
+  · simp only at ha
+    rw [fullWrite_alloc, memo_files] at ha
+    split at ha
+    · rename_i c; right; omega
+    · left; exact ha
+
 theorem writeOk_rmw (d : DD β) (h : WF d) (off len : Nat) (buf : Nat → β) (hb : off / d.bs < d.nb)
     (h1b : OneBlock d.bs off len) : WriteOk d (d.rmw off len buf) off len buf :=
   ⟨wf_rmw d h off len buf hb, live_rmw d h off len buf hb h1b,
    fun i u hi => view_rmw_below d off len buf i u hi,
    (rmw_other d off len buf).1, (rmw_other d off len buf).2.1, (rmw_other d off len buf).2.2,
-   rmw_meta d off len buf⟩
+   rmw_meta d off len buf, rmw_alloc d off len buf hb⟩
 
 theorem writeOk_fullWrite (d : DD β) (h : WF d) (s n : Nat) (buf : Nat → β) (hr : s + n ≤ d.nb) :
     WriteOk d (d.fullWrite s n buf) (s * d.bs) (n * d.bs) buf := by
   refine ⟨wf_fullWrite d h s n buf hr, ?_, fun i u hi => view_fullWrite_below d s n buf i u hi,
-    rfl, rfl, rfl, ⟨rfl, rfl, rfl, rfl, rfl⟩⟩
+    rfl, rfl, rfl, ⟨rfl, rfl, rfl, rfl, rfl⟩, ?_⟩
+  rotate_left
+  · intro i b ha
+    rw [fullWrite_alloc] at ha
+    split at ha
+    · rename_i c; right; omega
+    · left; exact ha
   intro u
   rw [live_fullWrite d h]
   have hbs := h.bs_pos
@@ -54,7 +72,12 @@ theorem writeOk_fullWrite (d : DD β) (h : WF d) (s n : Nat) (buf : Nat → β) 
 theorem WriteOk.trans {d d1 d2 : DD β} {off l1 l2 : Nat} {buf : Nat → β}
     (a : WriteOk d d1 off l1 buf) (b : WriteOk d1 d2 (off + l1) l2 buf) :
     WriteOk d d2 off (l1 + l2) buf := by
-  refine ⟨b.wf, ?_, ?_, b.bs.trans a.bs, b.nb.trans a.nb, b.top.trans a.top, ?_⟩
+  refine ⟨b.wf, ?_, ?_, b.bs.trans a.bs, b.nb.trans a.nb, b.top.trans a.top, ?_, ?_⟩
+  rotate_right
+  · intro i blk hh
+    rcases b.alloc i blk hh with c | c
+    · exact a.alloc i blk c
+    · right; rw [← a.nb]; exact c
   · intro u
     rw [b.live, a.live]
     by_cases c1 : off + l1 ≤ u ∧ u < off + l1 + l2
@@ -87,7 +110,7 @@ theorem writeOk_write (d : DD β) (h : WF d) (off len : Nat) (buf : Nat → β)
   by_cases hl : len = 0
   · subst hl
     simp only [if_true]
-    refine ⟨h, ?_, fun _ _ _ => rfl, rfl, rfl, rfl, ⟨rfl, rfl, rfl, rfl, rfl⟩⟩
+    refine ⟨h, ?_, fun _ _ _ => rfl, rfl, rfl, rfl, ⟨rfl, rfl, rfl, rfl, rfl⟩, fun _ _ hh => Or.inl hh⟩
     intro u
     have : ¬ (off ≤ u ∧ u < off + 0) := by omega
     simp only [this, if_false]
